@@ -294,6 +294,16 @@ fn gen_invocation(r: &mut Rng, names: Option<(String, String)>) -> Invocation {
             if inv.cert_file_name.as_deref() == Some("root-ca") && inv.ca_file_name.is_none() {
                 inv.cert_file_name = Some("leaf".into());
             }
+            // distinct base names of which one is the other plus ".key": <a>.key.pem is then both
+            // the key file of one and the certificate file of the other
+            if r.chance(1, 30) {
+                if r.bool() {
+                    inv.cert_file_name = Some(format!("{}.key", inv.ca_base()));
+                } else {
+                    inv.ca_file_name = Some(format!("{}.key", inv.cert_base()));
+                }
+                return inv;
+            }
             // distinct names that differ only in letter case (distinct files on this file system)
             if r.chance(1, 10) {
                 let base = inv.cert_base();
@@ -953,7 +963,14 @@ fn scenario(t: &CliTrace, fault: Option<&(usize, Fault)>, o: &mut Outcome, label
             o.count("invocations_under_fault_residue", 1);
         }
         let verdict = judge(inv, judged_fault, fired, code, &stderr, &before, &after, &out_dir, &mut model, o);
-        if let Err((class, detail)) = verdict {
+        if let Err((mut class, detail)) = verdict {
+            // distinct base names whose four output paths are not distinct: a class of its own,
+            // so that the listed finding about them never hides another violation of that class
+            let f = inv.files();
+            let collide = (0..4).any(|a| (a + 1..4).any(|b| f[a] == f[b])) && inv.cert_base() != inv.ca_base();
+            if collide && inv.invalid.is_none() && code == Some(0) && class == "c18-pem" && detail.contains("PEM label is") {
+                class = "c18-output-paths-collide".to_string();
+            }
             o.violate(&class, format!("[{label}] invocation {i} ({}): {detail}", inv.args(&out_arg.to_string_lossy()).join(" ")));
             break;
         }
